@@ -1,6 +1,6 @@
 """C07: command-level gate (get_command_instance), the registry's only writer (RequireCommand.complete_cb),
 its reset (Parser.__reset_parser) and the message text."""
-from pyvc.api import native, sym_str, sym_set, sym_bool, sym_int, ghost, opaque, prove, assume, note, implies, both, either, neg
+from pyvc.api import native, sym_str, sym_set, sym_bool, sym_int, ghost, opaque, prove, assume, note, implies, both, either, neg, in_re
 from sievelib import commands
 from sievelib import parser as sparser
 
@@ -102,13 +102,28 @@ def h_complete_cb_string():
     name = cap.strip('"')
     prove(implies(before, after), "G3.cb.monotone")
     prove(name in commands.RequireCommand.loaded_extensions, "G3.cb.adds-the-capability")
-    prove(implies(both(after, neg(before)), probe == name), "G3.cb.adds-nothing-else")
+    # (RFC 6131 section 2: requiring "vacation-seconds" also loads "vacation")
+    prove(implies(both(after, neg(before)), either(probe == name, both(name == "vacation-seconds", probe == "vacation"))), "G3.cb.adds-nothing-else")
+    prove(implies(name == "vacation-seconds", "vacation" in commands.RequireCommand.loaded_extensions), "G3.cb.vacation-seconds-implies-vacation")
+
+
+@native
+def re_no_quote():
+    import z3
+    from pyvc import sym
+    return z3.Star(sym.re_char_not('"'))
 
 
 def h_complete_cb_list(n):
     """require ["a", ...] with n items (n concrete: the loop is unrolled; labelled bounded-in-length)"""
     cmd = commands.RequireCommand(None)
-    caps = [sym_str("cap%d" % i) for i in range(n)]
+    # the two forms capability names arrive in: with their quotes (from the parser) and bare (from the factory); the names
+    # themselves are arbitrary quote-free texts (unconstrained strings are covered by the string and the any-length units)
+    caps = []
+    for i in range(n):
+        nm = sym_str("cap%d" % i)
+        assume(in_re(nm, re_no_quote()))
+        caps.append(('"' + nm + '"') if i % 2 == 0 else nm)
     cmd.arguments["capabilities"] = caps
     loaded = sym_set("loaded")
     commands.RequireCommand.loaded_extensions = loaded
@@ -119,7 +134,8 @@ def h_complete_cb_list(n):
     prove(implies(before, after), "G3.cb.list.monotone")
     for c in caps:
         prove(c.strip('"') in commands.RequireCommand.loaded_extensions, "G3.cb.list.adds-each")
-    prove(implies(both(after, neg(before)), either(*[probe == c.strip('"') for c in caps])), "G3.cb.list.adds-nothing-else")
+    prove(implies(both(after, neg(before)), either(*([probe == c.strip('"') for c in caps] +
+                                                        [both(c.strip('"') == "vacation-seconds", probe == "vacation") for c in caps]))), "G3.cb.list.adds-nothing-else")
 
 
 def h_reset_parser():
@@ -205,7 +221,10 @@ def _exists_added(seq, upto, probe):
     if F is None:
         F = strmodel._STRIP_FUNCS[key] = z3.Function("py_strip_" + key, z3.StringSort(), z3.StringSort())
     j = z3.Int("j!added")
-    return mkbool(z3.Exists([j], z3.And(j >= 0, j < to_z3int(upto), to_z3str(probe) == F(sym.F_seq_elem(seq.t, j)))))
+    e = F(sym.F_seq_elem(seq.t, j))
+    pt = to_z3str(probe)
+    named_or_implied = z3.Or(pt == e, z3.And(e == z3.StringVal("vacation-seconds"), pt == z3.StringVal("vacation")))
+    return mkbool(z3.Exists([j], z3.And(j >= 0, j < to_z3int(upto), named_or_implied)))
 
 
 def inv_complete_cb(L):
